@@ -5,8 +5,10 @@ import (
 	stded "crypto/ed25519"
 	"math/big"
 	"strconv"
+	"sync"
 
 	"github.com/oasisprotocol/curve25519-voi/primitives/ed25519"
+	"github.com/oasisprotocol/curve25519-voi/primitives/ed25519/extra/cache"
 )
 
 // flags: 0..31 bit i = {AllowSmallOrderA, AllowSmallOrderR, AllowNonCanonicalA, AllowNonCanonicalR, CofactorlessVerify};
@@ -147,16 +149,41 @@ func genV1(g *Gen) {
 	}
 }
 
+var (
+	v1Shared sync.Map // public key bytes -> *ed25519.ExpandedPublicKey, shared by all goroutines
+	v1CV     *cache.Verifier
+	v1CVOnce sync.Once
+)
+
 func execV1(op string, a []string) string {
 	switch op {
 	case "verify":
 		return b2s(ed25519.VerifyWithOptions(unhex(a[3]), unhex(a[4]), unhex(a[5]), mkOpts(a[0], a[1], a[2])))
 	case "verifyx":
-		xp, err := ed25519.NewExpandedPublicKey(unhex(a[3]))
-		if err != nil {
-			return "err"
+		// The expanded key is a SHARED object: one per public key for the whole process, used by whichever goroutines
+		// happen to verify under that key at the same time (precomputed objects are documented as safe to share), and the
+		// same question is put to one shared caching verifier with a deliberately tiny LRU (constant eviction).
+		pkb := unhex(a[3])
+		var xp *ed25519.ExpandedPublicKey
+		if v, ok := v1Shared.Load(string(pkb)); ok {
+			xp = v.(*ed25519.ExpandedPublicKey)
+		} else {
+			x, err := ed25519.NewExpandedPublicKey(pkb)
+			if err != nil {
+				return "err"
+			}
+			v, _ := v1Shared.LoadOrStore(string(pkb), x)
+			xp = v.(*ed25519.ExpandedPublicKey)
 		}
-		return b2s(ed25519.VerifyExpandedWithOptions(xp, unhex(a[4]), unhex(a[5]), mkOpts(a[0], a[1], a[2])))
+		o := mkOpts(a[0], a[1], a[2])
+		r1 := ed25519.VerifyExpandedWithOptions(xp, unhex(a[4]), unhex(a[5]), o)
+		if o != nil && len(pkb) == ed25519.PublicKeySize {
+			v1CVOnce.Do(func() { v1CV = cache.NewVerifier(cache.NewLRUCache(1)) })
+			if r2 := v1CV.VerifyWithOptions(pkb, unhex(a[4]), unhex(a[5]), o); r2 != r1 {
+				return "cache-mismatch " + b2s(r1) + " " + b2s(r2)
+			}
+		}
+		return b2s(r1)
 	case "stdverify":
 		return b2s(stded.Verify(unhex(a[0]), unhex(a[1]), unhex(a[2])))
 	}
